@@ -871,7 +871,7 @@ func (t *fnTrans) applyContract(fc *FuncContract, key string, sig *types.Signatu
 			env.vars[names[i]] = bound{Val{P: v.P, T: ""}, argTys[i]}
 			continue
 		}
-		env.vars[names[i]] = bound{Val{T: t.term(v)}, argTys[i]}
+		env.vars[names[i]] = bound{Val{T: t.term(v), IfaceP: v.IfaceP, IfaceT: v.IfaceT}, argTys[i]}
 	}
 	short := key
 	if fn != nil {
